@@ -250,6 +250,23 @@ def run(ctx):
         ctx.sample({"text": text, "numeral": num, "unit": unit}, tag=cls, per_tag=1)
         one_case(ctx, mon, cls, text, num, unit, ref, default)
         done += 1
+        # history: the next strings share the numeral (other unit), the unit (numeral +- a little) or
+        # everything but the reference with the previous one
+        if num is not None and rng.random() < 0.2:
+            for _ in range(rng.randint(1, 2)):
+                k = rng.randrange(3)
+                num2, unit2, ref2, default2 = num, unit, ref, default
+                if k == 0:
+                    unit2 = rng.choice(SUPPORTED)
+                elif k == 1:
+                    num2 = gen_numeral(rng)
+                else:
+                    ref2 = rng.choice((None, 100, 297.0, 1056, 0.5, 12))
+                    default2 = rng.choice((100, 793.7, 1, 3508, 0, -50, 12))
+                text2 = num2 + unit2
+                ctx.case(["history: related arguments after a previous call", "history kind %d" % k],
+                         (text2, ref2, default2, "after", text))
+                one_case(ctx, mon, "history", text2, num2, unit2, ref2, default2)
     # None input
     if plot_utils.parseLengthWithUnits(None) != (None, None) or \
             plot_utils.userUnitToUnits(None, "mm") is not None:
